@@ -39,3 +39,11 @@ package pubsubmon
 //@   ensures [check-interval] cfg.CheckInterval == libfn("time.ParseDuration", 0, jcfg.CheckInterval)
 //@   ensures [failure-threshold] cfg.FailureThreshold == ite(jcfg.FailureThreshold != nil, *jcfg.FailureThreshold, old(cfg.FailureThreshold))
 //@   modifies heap(Config)
+
+// ---- C18: "shutting a component down while it is in use": the shutdown flag is only read and written with the
+// shutdown lock held, so that concurrent Shutdown calls run the teardown once ----
+//@ guards Monitor.shutdownLock: shutdown
+//@ func (mon *Monitor) Shutdown
+//@   property C18
+//@   opts own
+//@   modifies *
